@@ -59,6 +59,14 @@ def lean_phase(spec, tier, res):
             info["leanchecker_tail"] = outc
     return info
 
+def run_pairs(dom, part, cases, timeout=None, jobs=None):
+    """implementation and model outputs for the cases of one part (domains that need the model's
+    schedule first – the interleaving domain – bring their own two-phase runner)"""
+    if hasattr(dom, "run_cases"):
+        return dom.run_cases(cases, part)
+    return corr.run_pair(part["domain"], cases, harness_extra=part.get("harness_extra"),
+                         timeout=timeout or part.get("timeout", 600), jobs=jobs or part.get("jobs", 8), chunk=part.get("chunk", 64))
+
 def corr_phase(prop, spec, tier, seed, res, budget_scale=1):
     """runs every correspondence part; returns list of divergences and coverage counters"""
     divergences = []
@@ -76,8 +84,7 @@ def corr_phase(prop, spec, tier, seed, res, budget_scale=1):
             cases.append(("corpus", c))
         for c in part["gen"](rng, tier, n):
             cases.append(("gen", c))
-        pairs = corr.run_pair(part["domain"], [c for _, c in cases], harness_extra=part.get("harness_extra"),
-                              timeout=part.get("timeout", 600), jobs=part.get("jobs", 8), chunk=part.get("chunk", 64))
+        pairs = run_pairs(dom, part, [c for _, c in cases])
         infos = []
         for (origin, lines), (impl, model) in zip(cases, pairs):
             impl, info = corr.split_info(impl)
@@ -124,7 +131,7 @@ def shrink_divergence(prop, dv, want_property_failure):
     part = dv["part"]
     dom = importlib.import_module("checklib.domains." + part["domain_module"])
     def still(cand):
-        (impl, model), = corr.run_pair(part["domain"], [cand], harness_extra=part.get("harness_extra"), timeout=60, jobs=2)
+        (impl, model), = run_pairs(dom, part, [cand], timeout=60, jobs=2)
         impl, info = corr.split_info(impl)
         if dv.get("judged"):
             return bool(dom.judge_info(prop, [(cand, info)]))
@@ -136,7 +143,7 @@ def shrink_divergence(prop, dv, want_property_failure):
             return bool(dom.property_fails(prop, cand, impl, model))
         return True
     small = corr.shrink(part["domain"], dv["lines"], still, protect=getattr(dom, "protect", lambda l: False))
-    (impl, model), = corr.run_pair(part["domain"], [small], harness_extra=part.get("harness_extra"), timeout=60, jobs=2)
+    (impl, model), = run_pairs(dom, part, [small], timeout=60, jobs=2)
     if not dv.get("judged"):
         impl, _ = corr.split_info(impl)
     if hasattr(dom, "normalize") and not dv.get("judged"):
@@ -286,7 +293,12 @@ def replay(prop, spec, path):
     if not ok:
         print("harness build failed:\n" + msg)
         return 1
-    (impl, model), = corr.run_pair(payload["domain"], [payload["input"]], harness_extra=payload.get("harness_extra"), timeout=120, jobs=2)
+    part_r = [p for p in spec["parts"] if p["domain"] == payload["domain"]]
+    if part_r:
+        dom_r = importlib.import_module("checklib.domains." + part_r[0]["domain_module"])
+        (impl, model), = run_pairs(dom_r, part_r[0], [payload["input"]], timeout=120, jobs=2)
+    else:
+        (impl, model), = corr.run_pair(payload["domain"], [payload["input"]], harness_extra=payload.get("harness_extra"), timeout=120, jobs=2)
     impl_full = impl
     impl, info = corr.split_info(impl)
     part0 = [p for p in spec["parts"] if p["domain"] == payload["domain"]]
